@@ -5,7 +5,7 @@
     Models: KeyDefs.v (cache keys, memo cache), GraphDefs.v (weak equivalence lists, the search,
     the construction API).  Vocabulary of the statements: EquivSpec.v. *)
 From Coq Require Import List Arith Bool NArith Relations.
-From LC Require Import KeyDefs GraphDefs EquivSpec KeyProofs GraphProofs.
+From LC Require Import KeyDefs GraphDefs EquivSpec KeyProofs GraphProofs EquivSeqProofs.
 Import ListNotations.
 
 (** *** 1. "regardless of where the objects happen to live in memory": the cache key *)
@@ -241,6 +241,41 @@ Example C18_ids_nonvacuous :
      Ask QIndirect 0 2; Ask QIndirect 2 0; Ask QCached 0 2; Edit (RemAll 0); Ask QIndirect 0 1; Ask QUtil 1 0].
 Proof. exact GraphProofs.ids_nonvacuous. Qed.
 Print Assumptions C18_ids_nonvacuous.
+
+(** *** 8. The analyser's own use of the cache: ANY finite sequence of areEquivalentVariables queries (any pairs,
+    any order, any repetition) against a fixed connection graph, from the empty cache of a new AnalyserModel.
+    [seq_run] folds the model's [query] over the list (it is [model_queries], second theorem);
+    [cache_consistent n g c]: every entry of c is the right answer for a pair of variables of the model that has
+    that key; [right_answer g a b r]: r = Some r0 with r0 = true <-> a = b \/ connected g a b. *)
+Theorem C18_any_query_sequence_consistent :
+  forall n g qs, symmetric g -> bounded g n -> in_range n qs ->
+  forall k,
+    cache_consistent n g (fst (seq_run n g (firstn k qs))) /\
+    Forall2 (fun q r => right_answer g (fst q) (snd q) r) (firstn k qs) (snd (seq_run n g (firstn k qs))).
+Proof. exact EquivSeqProofs.any_query_sequence_consistent. Qed.
+Print Assumptions C18_any_query_sequence_consistent.
+
+Theorem C18_seq_run_is_model_queries :
+  forall n g qs, snd (seq_run n g qs) = model_queries heap_addr n g qs.
+Proof. exact EquivSeqProofs.seq_run_is_model_queries. Qed.
+Print Assumptions C18_seq_run_is_model_queries.
+
+(** After any two histories of queries the same question gets the same answer, and it is the right one. *)
+Theorem C18_answers_history_independent :
+  forall n g qs1 qs2 a b, symmetric g -> bounded g n ->
+  in_range n qs1 -> in_range n qs2 -> a < n -> b < n ->
+  fst (query pair_eqb (model_key heap_addr) (are_equivalent n g) (fst (seq_run n g qs1)) a b) =
+  fst (query pair_eqb (model_key heap_addr) (are_equivalent n g) (fst (seq_run n g qs2)) a b) /\
+  right_answer g a b (fst (query pair_eqb (model_key heap_addr) (are_equivalent n g) (fst (seq_run n g qs1)) a b)).
+Proof. exact EquivSeqProofs.answers_history_independent. Qed.
+Print Assumptions C18_answers_history_independent.
+
+Example C18_seq_nonvacuous :
+  snd (seq_run 4 ex_seq_graph ex_seq) = [Some true; Some true; Some false; Some true; Some true] /\
+  length (fst (seq_run 4 ex_seq_graph ex_seq)) = 3 /\
+  symmetric ex_seq_graph /\ bounded ex_seq_graph 4 /\ in_range 4 ex_seq.
+Proof. exact EquivSeqProofs.seq_nonvacuous. Qed.
+Print Assumptions C18_seq_nonvacuous.
 
 (** Non-vacuity: chain 0-1-2, 3 isolated, 4 linked then destroyed; too little fuel is [None], not [false]. *)
 Example C18_nonvacuous :
